@@ -15,7 +15,7 @@ make -C $wt/src -j16 flex >/dev/null 2>&1 || echo "pristine build failed" >> $re
 bash $demo $wt >/tmp/seedrun-$id-$$.demo0 2>&1; echo "demo_on_pristine_exit=$?" >> $res
 ( cd $wt && git apply $patch ) || { echo "patch does not apply" >> $res; }
 make -C $wt/src -j16 flex >/tmp/seedrun-$id-$$.build 2>&1; echo "build_exit=$?" >> $res
-make -C $wt -j16 check >/tmp/seedrun-$id-$$.check 2>&1
+make -C $wt/tests clean >/dev/null 2>&1; make -C $wt -j16 check >/tmp/seedrun-$id-$$.check 2>&1
 echo "tests: $(grep -E '^# (PASS|FAIL):' /tmp/seedrun-$id-$$.check | tr -s ' ' | tr '\n' ' ')" >> $res
 bash $demo $wt >/tmp/seedrun-$id-$$.demo1 2>&1; echo "demo_on_patched_exit=$?" >> $res
 # checks on the patched tree (scratch copy, separate cache)
